@@ -120,7 +120,9 @@ def judge(ctx, g, prune, o):
             continue
         exp = best[s]
         # a Player-2 state whose reachability strategy names no permitted action reports 0
-        if abs(Fr(S.rew_min_reach[s]) - exp) > TOL * scale:
+        # acyclic family with costs a few 1e-7 apart: the report is exact up to float rounding
+        tol_ = Fr(1, 10 ** 9) if g.get("_meta", {}).get("family") == "close_costs" else TOL
+        if abs(Fr(S.rew_min_reach[s]) - exp) > tol_ * scale:
             res_ok = w_residual(S, chain, cond, reach, g["rewards"]) <= THR * (1 + Fr(1, 1000)) + Fr(1, 10 ** 10) * scale and \
                 all(best[t] is None or Fr(S.rew_min_reach[t]) <= best[t] + Fr(1, 10 ** 9) * scale for t in reach)
             ctx.violation("reward-under-min-reach", inp,
@@ -174,6 +176,8 @@ def run(ctx, model=None):
         h_ = gen.stopping_game(rng, n_inner=rng.randint(2, 5)) if k % 2 else gen.layered_tie_game(rng)
         h_["final_states"] = h_["final_states"] * 2 + h_["final_states"]       # the same final state listed three times
         check_case(ctx, h_, model)
+    for _k in range(8 if ctx.quick() else 200):
+        check_case(ctx, gen.close_costs_game(rng), model)
     through_run_games(ctx, rng, 12 if ctx.quick() else 300)
     import analysis as _an0
     _an0.optimized_interpreter(ctx, [gen.layered_tie_game(rng) for _ in range(6)] + [gen.stopping_game(rng, dead_frac=0.3) for _ in range(6)],
